@@ -87,6 +87,15 @@ def copyprop_candidates(doc):
     return out
 
 
+def deadcode_candidates(doc):
+    from fpy2.transform.dead_code import _DeadCodeEliminate
+    out = []
+    for fn in DEAD_PROGRAMS:
+        m = as_model(fn)
+        out.append({'self': _DeadCodeEliminate(m, m.def_use)})
+    return out
+
+
 def stub_analyze(orig):
     """native realisation of the trusted contract DefineUse_analyze: the ghost field IS the analysis"""
     def analyze(ast):
@@ -160,9 +169,20 @@ def reach_site(f, s, y):
     return _idx(du, du.reach.get(s), y)
 
 
+CURRENT = {'du': None}
+
+
+def pure_expr(e):
+    from fpy2.analysis import Purity
+    if e is None or not isinstance(e, A.Expr):
+        return False
+    return Purity.analyze_expr(e, CURRENT['du'])
+
+
 GHOSTS = {
     'reach_use': reach_use,
     'reach_site': reach_site,
+    'pure_expr': pure_expr,
 }
 
 
@@ -173,6 +193,7 @@ def key_universe(args):
     du = getattr(f, 'def_use', None)
     if du is None:
         du = getattr(args.get('self'), 'def_use', None)
+    CURRENT['du'] = du
     if du is not None:
         out += list(du.defs)
         for us in du.uses.values():
@@ -198,7 +219,7 @@ def _run(ast, vals):
 def demo(args, result):
     """original vs transformed program on sample inputs (whole-program C07, for the record)"""
     import itertools
-    f = args.get('func')
+    f = args.get('func') or getattr(args.get('self'), 'func', None)
     g = result[0] if isinstance(result, tuple) else result
     if not isinstance(f, A.FuncDef) or not isinstance(g, A.FuncDef):
         return None
